@@ -41,13 +41,25 @@ def run(ctx, R):
     f_int, f_sub, f_eqn, f_val = fn("intersect"), fn("is_scalar_only_subtype"), fn("equal_ignoring_nullability"), fn("is_valid_value")
     if None in (f_int, f_sub, f_eqn, f_val):
         return
-    intr = T.intrinsics()
+    # The operations are evaluated on the *real* representation (base name + modifier bit mask): the primitive accessors'
+    # own code (`mask & 1`, `mask >> 2`, ...) is interpreted, not modelled; results are decoded back to the algebraic view.
+    from . import tybits as B
+    intr = B.intrinsics()
     types = T.all_types()
     R.units["types"] = len(types)
+    R.units["representation"] = "concrete bit masks (rules/tybits.py)"
 
     def call(f, *args):
-        ip = A.Interp(C, intrinsics=intr)
-        return A.deref(ip.call_fn(f, list(args)))
+        ip = A.Interp(C, intrinsics=intr, max_steps=200000)
+        res = A.deref(ip.call_fn(f, [B.concrete(a) if isinstance(a, T.TypeV) else a for a in args]))
+        if isinstance(res, A.Enum) and res.adt == T.OPTION and res.variant == "Some":
+            inner = A.deref(res.fields[0])
+            if isinstance(inner, A.Struct) and inner.adt == T.TY:
+                try:
+                    return A.Enum(T.OPTION, "Some", [B.decode(inner)])
+                except ValueError as e:
+                    raise A.Unsupported("result is not a well-formed type: %s" % e)
+        return res
 
     SUB, INT, EQN = {}, {}, {}
     try:
@@ -149,6 +161,35 @@ def run(ctx, R):
     b = first((x, y, v) for x in keys for y in keys if le(x, y) for v in vals if VAL.get((x, v)) and not VAL.get((y, v)))
     R.check(b is None, "r3", "upward-closed", C.loc(f_val["sp"]),
             "value %s is valid for %s but not for its supertype %s" % (b and b[2], b and show(b[0]), b and show(b[1])))
+
+    # r6: the same operations at large list depths (the mask uses 2 bits per layer up to depth 30: bit 60/61 edge)
+    R.rule("r6", "intersect / subtype / shape equality agree with the definitions on deep types (list depth 3, 10, 29, 30) incl. depth mismatches")
+    deep = []
+    for dpt in (3, 10, 29, 30):
+        deep += [B.nested(dpt, lambda i: True), B.nested(dpt, lambda i: False), B.nested(dpt, lambda i: i % 2 == 0),
+                 B.nested(dpt, lambda i, dpt=dpt: i != dpt), B.nested(dpt, lambda i: i != 0)]
+    deep.append(B.nested(30, lambda i: i == 30, base="String"))
+    bad6 = None
+    n6 = 0
+    try:
+        for a, b_ in itertools.product(deep, deep):
+            if abs(a.depth() - b_.depth()) > 1 and a.depth() not in (29, 30):
+                continue
+            n6 += 1
+            got_sub = call(f_sub, a, b_)
+            o = call(f_int, a, b_)
+            got_int = None if o.variant == "None" else A.deref(o.fields[0]).key()
+            got_eqn = call(f_eqn, a, b_)
+            m = T.meet(a, b_)
+            if bad6 is None and (got_sub != T.is_subtype(a, b_) or got_int != (m.key() if m else None) or got_eqn != T.same_shape(a, b_)):
+                bad6 = (B.render(a)[:40], B.render(b_)[:40], a.depth(), b_.depth(),
+                        "subtype=%s want %s" % (got_sub, T.is_subtype(a, b_)), "intersect %s" % ("ok" if got_int == (m.key() if m else None) else "wrong"),
+                        "shape-eq=%s want %s" % (got_eqn, T.same_shape(a, b_)))
+        R.check(bad6 is None, "r6", "deep-types", C.loc(f_int["sp"]), "a type operation is wrong on deep list types: %s" % (bad6,), {"pairs": n6})
+    except A.Unsupported as e:
+        R.fail("r6", "unanalysable", C.loc(f_int["sp"]), "abstract evaluation on deep types failed: %s (fail closed)" % e)
+    except A.PanicReached as e:
+        R.fail("r6", "panic", C.loc(f_int["sp"]), "a Type operation panics on a deep type: %s" % e.what)
 
     # r5: bit layout constants and shift agreement
     consts = {}
